@@ -108,6 +108,10 @@ def gen_cases(tier, seed):
     cases = []
     for d in _base_descs(tier):
         cases.append(dict(kind='base', shape=d))
+    # more than 256 control points in total / more than 9 per direction (size thresholds of an implementation)
+    from .. import util_knots as K
+    for d in K.huge_shapes(tier):
+        cases.append(dict(kind='base', shape=d))
     cases.append(dict(kind='cross'))
     for d in _base_descs('quick'):
         if d.get('normalize_kv', True) and any(len(kv) > 2 * (p + 1) for kv, p in zip(d['kvs'], d['degrees'])):
